@@ -12,7 +12,7 @@ from vfw import simworld, xfer
 from vfw.runner import CaseResult
 
 NAMES = ['song.mp3', 'a (1).txt', 'x']
-OFFSETS_MS = [0, 0, 0, 0.1, 0.5, 1, 5, 40]
+OFFSETS_MS = [0, 0, 0, 0.1, 0.5, 1, 5, 25, 40, 70, 100]
 EXEC_DELAYS = [0.0, 0.0, 0.0005, 0.002, 0.02]
 
 
@@ -40,6 +40,12 @@ def enumerated():
                 for ed in (0.0, 0.002):
                     yield {'t': 'conc', 'name': name, 'n': n, 'download_at': [0] * n, 'start_at': [0, off, off][:n],
                            'sizes': [9000] * n, 'exec_delay': ed, 'pre': 'none', 'limited': False, 'same_dir': True}
+    # three downloads, two starting together and the third arriving while the second is still starting up
+    # (slow executor: every file-system step takes 2 / 20 ms)
+    for ed in (0.002, 0.02):
+        for third in (1, 3, 5, 8, 12, 25, 40, 55, 70, 85, 100):
+            yield {'t': 'conc', 'name': NAMES[0], 'n': 3, 'download_at': [0, 0, 0], 'start_at': [0, 0, third],
+                   'sizes': [9000, 9000, 9000], 'exec_delay': ed, 'pre': 'none', 'limited': False, 'same_dir': True}
 
 
 def _num(v, lo, hi, default):
